@@ -208,6 +208,10 @@ fn cfg(dp: u32, tp: u32, comp: Option<i32>) -> ConfigOptions {
     }
 }
 
+fn path_hex(p: &Path) -> String {
+    p.components().map(|c| hex::encode(c.as_os_str().as_bytes())).collect::<Vec<_>>().join("/")
+}
+
 fn flat(s: &str) -> String {
     s.replace(['\n', ' ', '|'], "_")
 }
@@ -550,8 +554,18 @@ fn mode_w(seed: u64, variant: u64) -> Result<String> {
         }
     }
     let ok = check && paths_ok && nodes_ok && dumps_ok;
+    // material for the extracted TreeModifier/rewrite model: original tree, the matcher's verdict per node, new tree
+    let get = |id: &TreeId| -> Result<Tree> { Ok(repo.get_tree(id)?) };
+    let mut extra = String::from(" | O");
+    render(&get, &snap.tree, Style::Real, &mut extra)?;
+    let ign: Vec<String> = before.iter().filter(|(p, n)| matcher.matched(p, n.is_dir()).is_ignore()).map(|(p, _)| path_hex(p)).collect();
+    extra.push_str(&format!(" | X {} {}", ign.len(), ign.join(" ")));
+    if new.len() == 1 {
+        extra.push_str(" | N");
+        render(&get, &new[0].tree, Style::Real, &mut extra)?;
+    }
     Ok(format!(
-        "{} check={} paths_ok={} nodes_ok={} dumps_ok={} entries={} excluded={} new_snapshots={} globs={} detail={}",
+        "{} check={} paths_ok={} nodes_ok={} dumps_ok={} entries={} excluded={} new_snapshots={} globs={} detail={}{extra}",
         if ok { "ok" } else { "fail what=rewrite" },
         u8::from(check), u8::from(paths_ok), u8::from(nodes_ok), u8::from(dumps_ok), before.len(), nexcl, new.len(),
         flat(&globs.join(",")), detail
@@ -584,6 +598,14 @@ fn mode_r(seed: u64, variant: u64) -> Result<String> {
     let snaps = vec![s1.clone(), s2.clone()];
     let lists: Vec<Listing> = snaps.iter().map(|s| listing(&repo, s)).collect::<Result<_>>()?;
     let orig_dumps: Vec<_> = lists.iter().map(|l| dumps(&repo, l)).collect();
+    let mut extra = String::new();
+    {
+        let get = |id: &TreeId| -> Result<Tree> { Ok(repo.get_tree(id)?) };
+        for s in &snaps {
+            extra.push_str(" | O");
+            render(&get, &s.tree, Style::Real, &mut extra)?;
+        }
+    }
     // phase 1: undamaged repository -> nothing changes (not one byte of the store)
     let store_before = dump_store(store.as_ref());
     repo.repair_snapshots(&RepairSnapshotsOptions::default(), snaps.clone(), false)?;
@@ -612,6 +634,30 @@ fn mode_r(seed: u64, variant: u64) -> Result<String> {
     let repo = open_repo(store.clone(), None, &key, &repo_opts())?.to_indexed()?;
     let before_ids: BTreeSet<String> = repo.get_all_snapshots()?.iter().map(|s| s.id.to_hex().to_string()).collect();
     let opts = RepairSnapshotsOptions::default().delete(variant & 2 == 2);
+    // what is missing now: data blobs (L), directories whose subtree cannot be loaded (U, by path; "-" = the root tree)
+    {
+        let mut lost: BTreeSet<u64> = BTreeSet::new();
+        for (oi, l) in lists.iter().enumerate() {
+            let mut un: Vec<String> = Vec::new();
+            if repo.get_index_entry::<TreeId>(&snaps[oi].tree).is_err() {
+                un.push("-".into());
+            }
+            for (p, n) in l {
+                for d in n.content.iter().flatten() {
+                    if repo.get_index_entry::<DataId>(d).is_err() {
+                        let _ = lost.insert(id_to_u64(&Id::from(**d)) >> 20);
+                    }
+                }
+                if let (true, Some(t)) = (n.is_dir(), &n.subtree) {
+                    if repo.get_index_entry::<TreeId>(t).is_err() {
+                        un.push(path_hex(p));
+                    }
+                }
+            }
+            extra.push_str(&format!(" | U {oi} {} {}", un.len(), un.join(" ")));
+        }
+        extra.push_str(&format!(" | L {} {}", lost.len(), lost.iter().map(u64::to_string).collect::<Vec<_>>().join(" ")));
+    }
     let cur = repo.get_all_snapshots()?;
     repo.repair_snapshots(&opts, cur, false)?;
     drop(repo);
@@ -647,6 +693,13 @@ fn mode_r(seed: u64, variant: u64) -> Result<String> {
             detail = "repaired_snapshot_without_original".into();
             continue;
         };
+        if is_new {
+            let get = |id: &TreeId| -> Result<Tree> { Ok(repo.get_tree(id)?) };
+            let mut t = format!(" | N {oi}");
+            if render(&get, &s.tree, Style::Real, &mut t).is_ok() {
+                extra.push_str(&t);
+            }
+        }
         if !is_new && opts.delete {
             // an untouched snapshot must still be fully intact
         }
@@ -702,7 +755,7 @@ fn mode_r(seed: u64, variant: u64) -> Result<String> {
         detail = "check_reports_errors_after_repair_with_delete".into();
     }
     Ok(format!(
-        "{} intact_unchanged={} damaged=1 tree_pack={} blobs_lost={} kept_ok={} ls_ok={} check={} repaired={} marked={} unmarked_files={} unsorted={} snapshots_after={} detail={}",
+        "{} intact_unchanged={} damaged=1 tree_pack={} blobs_lost={} kept_ok={} ls_ok={} check={} repaired={} marked={} unmarked_files={} unsorted={} snapshots_after={} detail={}{extra}",
         if ok { "ok" } else { "fail what=repair" },
         u8::from(intact_unchanged), u8::from(want_tree), nblobs, u8::from(kept_ok), u8::from(ls_ok), u8::from(check), repaired, marked,
         unmarked_files, unsorted, after.len(), detail
